@@ -9,6 +9,8 @@ pub mod c11;
 pub mod c12;
 pub mod c13;
 pub mod c14;
+pub mod c15;
+pub mod c16;
 
 pub struct Args {
     pub prop: String,
@@ -46,6 +48,8 @@ pub fn run(args: &Args) -> Shard {
         "C11" => c11::run(args, &mut sh),
         "C13" => c13::run(args, &mut sh),
         "C14" => c14::run(args, &mut sh),
+        "C15" => c15::run(args, &mut sh),
+        "C16" => c16::run(args, &mut sh),
         "DBG" => { let mut a2 = Args { prop: "C03".into(), tier: args.tier.clone(), build: args.build.clone(), seed: args.seed, shard: 0, nshards: 1, replay: None, scale: 1000 }; a2.seed = args.seed; c01_04::debug_mismatch(&a2) }
         p => sh.inconclusive.push(format!("no check implemented for {}", p)),
     }
